@@ -1,5 +1,271 @@
 /-
-C06 — property theorems (stub: no theorem stated yet, so no obligation is counted).
+C06 — SAM text round trip; SAM and BAM views of a record agree; the SAM reader returns every line.
+PROPERTY THEOREMS ONLY.  Every statement is for all records / lines / inputs (no bound on lengths).
+
+Model: Hts.Model.SamText (MarshalSAM, UnmarshalSAM, ParseAux, ParseCigar, strconv integer parsing, the
+line handling of sam.Reader), with the repairs fixes/C06-1..6 applied.  Specification: Hts.Spec.SamLine.
+Float text is the parameter `ft : FloatText` with the assumed laws `L : FloatLaws ft`.
 -/
+import Hts.Lemmas.SamRecord
+import Hts.Lemmas.SamStable
+import Hts.Lemmas.SamReader
+import Hts.Lemmas.SamSpec
 namespace Hts.Props.C06
+open Hts.Model.SamText
+open Hts.Model.Coord (CigarOp)
+
+/-! ### field-level round trips -/
+
+/-- `Atoi(%d of i) = i` for every Go int -/
+theorem int_roundtrip (i : Int) (hlo : -9223372036854775808 ≤ i) (hhi : i < 9223372036854775808) :
+    atoi (showInt i) = some i := atoi_showInt i hlo hhi
+
+/-- FLAG in decimal and in `0x` hexadecimal reads back (strconv.ParseUint with base 0, 16 bits) -/
+theorem flags_roundtrip (fl : UInt16) (f : FlagFmt) (hf : f = .dec ∨ f = .hex) :
+    (parseUintGo (formatFlags fl f) 0 16).map UInt16.ofNat = some fl := by
+  rw [parse_formatFlags fl f hf]; simp
+
+/-- CIGAR: `ParseCigar(c.String()) = c` for the operations M I D N S H P = X B with 28-bit lengths -/
+theorem cigar_roundtrip (c : List CigarOp) (h : ∀ co ∈ c, co.typ ≤ 9 ∧ co.len < 268435456) :
+    parseCigar (formatCigar c) = .ok c := parseCigar_formatCigar c h
+
+/-- SEQ: every sequence of base codes, the empty one included -/
+theorem seq_roundtrip (s : List (Fin 16)) : parseSeq (formatSeq s) = s := parse_formatSeq s
+
+/-- QUAL: absent or Phred 0..93 (not the single quality 9, whose text is `*`) -/
+theorem qual_roundtrip {ft : FloatText} (L : FloatLaws ft) (r : Record) (h : QualOK r) :
+    parseQual (formatQual r.qual) r.seq.length = canonQual r ∧ qualView (canonRecord L r) = qualView r :=
+  ⟨parseQual_formatQual r h, (qualView_canon L r h).symm⟩
+
+/-- aux fields of every type (A, integers of the six sizes, f, Z incl. empty, H incl. empty, arrays
+incl. empty): ParseAux of the printed field is the field with integers narrowed, prints the same, and
+is equal as a value -/
+theorem aux_roundtrip {ft : FloatText} (L : FloatLaws ft) (a : Aux) (h : AuxRep a) :
+    parseAux ft (formatAux ft a) = .ok (canonAux L a) ∧ formatAux ft (canonAux L a) = formatAux ft a ∧
+      auxEq a (canonAux L a) :=
+  ⟨parseAux_formatAux L a h, formatAux_canonAux L a, auxEq_canonAux L a⟩
+
+/-! ### the record -/
+
+/-- UnmarshalSAM of the line MarshalSAM writes is the canonical form of the record: every field
+identical, absent qualities as the 0xff run, numeric aux types narrowed -/
+theorem format_parse_canon {ft : FloatText} (L : FloatLaws ft) (h : Header) (hh : HeaderOK h) (f : FlagFmt)
+    (hf : f = .dec ∨ f = .hex) (r : Record) (he : Expressible h r) :
+    ∃ line, formatRecord ft f r = .ok line ∧ parseRecord ft (some h) line = .ok (canonRecord L r) :=
+  ⟨_, formatRecord_ok f r he.2.2.2.2.2.1, parseRecord_format L h hh f hf r he⟩
+
+/-- **round trip**: for every expressible record, with decimal or hexadecimal flags, the line parses
+back (against the same header) to a record that formats to the identical line and has equal fields -/
+theorem format_parse_format {ft : FloatText} (L : FloatLaws ft) (h : Header) (hh : HeaderOK h) (f : FlagFmt)
+    (hf : f = .dec ∨ f = .hex) (r : Record) (he : Expressible h r) :
+    ∃ line r', formatRecord ft f r = .ok line ∧ parseRecord ft (some h) line = .ok r' ∧
+      formatRecord ft f r' = .ok line ∧ fieldsEq r r' :=
+  ⟨_, canonRecord L r, formatRecord_ok f r he.2.2.2.2.2.1, parseRecord_format L h hh f hf r he,
+    formatRecord_canon L f r he.2.2.2.2.2.1, fieldsEq_canon L r he.2.2.2.2.2.1⟩
+
+/-- the parsed-back record is itself expressible and is a fixed point: formatting and parsing it again
+returns exactly the same record (a second round trip changes nothing) -/
+theorem roundtrip_stable {ft : FloatText} (L : FloatLaws ft) (h : Header) (hh : HeaderOK h) (f : FlagFmt)
+    (hf : f = .dec ∨ f = .hex) (r : Record) (he : Expressible h r) :
+    Expressible h (canonRecord L r) ∧
+      parseRecord ft (some h) (joinWith 9 (recordFields ft f (canonRecord L r))) = .ok (canonRecord L r) := by
+  have he' := expressible_canon L h r he
+  refine ⟨he', ?_⟩
+  rw [parseRecord_format L h hh f hf _ he', canonRecord_idem]
+
+/-- parsing the line without a header (`UnmarshalSAM(nil, …)`, `UnmarshalText`) gives the same record
+with made-up references carrying the names (id -1, length 0), and that record formats to the same line -/
+theorem format_parse_nil_header {ft : FloatText} (L : FloatLaws ft) (h : Header) (hh : HeaderOK h) (f : FlagFmt)
+    (hf : f = .dec ∨ f = .hex) (r : Record) (he : Expressible h r) :
+    ∃ line, formatRecord ft f r = .ok line ∧ parseRecord ft none line = .ok (fakeRefs (canonRecord L r)) ∧
+      formatRecord ft f (fakeRefs (canonRecord L r)) = .ok line := by
+  refine ⟨_, formatRecord_ok f r he.2.2.2.2.2.1, parseRecord_format_nil L h hh f hf r he, ?_⟩
+  have hq := qualOK_canon L r he.2.2.2.2.2.1
+  have h1 : formatRecord ft f (fakeRefs (canonRecord L r)) =
+      .ok (joinWith 9 (recordFields ft f (fakeRefs (canonRecord L r)))) := formatRecord_ok f _ hq
+  rw [h1, recordFields_fakeRefs h hh f (canonRecord L r) he.2.1 he.2.2.1, recordFields_canon]
+
+/-- the line is the one the specification's formatter produces for the record's abstraction -/
+theorem format_is_spec (ft : FloatText) (h : Header) (r : Record) (he : Expressible h r) :
+    formatRecord ft .dec r = .ok (Hts.Spec.SamLine.samLine ft.fmt (toSpec r)) := by
+  rw [formatRecord_ok .dec r he.2.2.2.2.2.1]
+  unfold Hts.Spec.SamLine.samLine
+  rw [tabJoin_eq_joinWith, fields_eq ft r he.2.2.2.1 (fun co hco => (he.2.2.2.2.1.1 co hco).1)
+    (fun a ha c hc => by
+      have := auxRep_of_auxOK a (he.2.2.2.2.2.2 a ha)
+      unfold AuxRep at this
+      rw [hc] at this
+      exact this)]
+
+/-- with hexadecimal flags only the FLAG field differs: `0x` and the lower-case hex digits of the value -/
+theorem format_hex_fields (ft : FloatText) (r : Record) :
+    recordFields ft .hex r = (recordFields ft .dec r).set 1 (48 :: 120 :: showHex r.flags.toNat) := rfl
+
+/-- SAM and BAM views agree: a record as bam.Reader returns it (absent qualities = a run of 0xff)
+formats to the same line, in every flag format -/
+theorem bam_then_sam (ft : FloatText) (f : FlagFmt) (r : Record) :
+    formatRecord ft f (norm r) = formatRecord ft f r := by
+  unfold formatRecord norm recordFields
+  cases hq : r.qual with
+  | none =>
+    have : (List.replicate r.seq.length (255 : UInt8)).any (· != 255) = false := by
+      rw [List.any_eq_false]; intro x hx; simp [List.eq_of_mem_replicate hx]
+    simp [formatQual, this]
+  | some q => simp
+
+/-! ### the reader -/
+
+/-- a reader over an input with header returns exactly the lines of the input as records: LF or CRLF
+per line, with or without a final newline -/
+theorem reader_lines (ft : FloatText) (h : Header) (ls : List (Bytes × Bool)) (final : Bool)
+    (hl : ∀ p ∈ ls, (∀ c ∈ p.1, c ≠ 10) ∧ p.1.getLast? ≠ some 13)
+    (hlast : final = false → ∀ p, ls.getLast? = some p → p.1 ≠ []) :
+    readAll ft h (joinLines ls final) = ls.map fun p => parseRecord ft (some h) p.1 := by
+  unfold readAll
+  rw [reader_lines_strip ls final hl hlast, List.map_map]
+  rfl
+
+/-- the same without header lines (references are created as they are met) -/
+theorem reader_lines_noheader (ft : FloatText) (ls : List (Bytes × Bool)) (final : Bool)
+    (hl : ∀ p ∈ ls, (∀ c ∈ p.1, c ≠ 10) ∧ p.1.getLast? ≠ some 13)
+    (hlast : final = false → ∀ p, ls.getLast? = some p → p.1 ≠ []) :
+    readAllNoHeader ft (joinLines ls final) = noHeaderLoop ft (ls.map (·.1)) [] := by
+  unfold readAllNoHeader
+  rw [reader_lines_strip ls final hl hlast]
+
+/-- writing expressible records as lines and reading them returns every record (in canonical form),
+whatever the line ends and whether or not the last line is terminated -/
+theorem write_then_read {ft : FloatText} (L : FloatLaws ft) (h : Header) (hh : HeaderOK h) (f : FlagFmt)
+    (hf : f = .dec ∨ f = .hex) (rs : List (Record × Bool)) (final : Bool) (he : ∀ p ∈ rs, Expressible h p.1) :
+    readAll ft h (joinLines (rs.map fun p => (joinWith 9 (recordFields ft f p.1), p.2)) final) =
+      rs.map fun p => .ok (canonRecord L p.1) := by
+  have hline : ∀ p ∈ rs, (∀ c ∈ joinWith 9 (recordFields ft f p.1), c ≠ 10 ∧ c ≠ 13) ∧
+      joinWith 9 (recordFields ft f p.1) ≠ [] := by
+    intro p hp
+    have hsep := recordFields_no_sep L h hh f hf p.1 (he p hp)
+    have hname := (he p hp).1
+    constructor
+    · intro c hc
+      have key : ∀ (fs : List Bytes), (∀ fld ∈ fs, ∀ c ∈ fld, c ≠ 9 ∧ c ≠ 10 ∧ c ≠ 13) →
+          ∀ c ∈ joinWith 9 fs, c ≠ 10 ∧ c ≠ 13 := by
+        intro fs
+        induction fs with
+        | nil => intro _ c hc; simp [joinWith] at hc
+        | cons x xs ih =>
+          intro hx c hc
+          cases xs with
+          | nil => simp only [joinWith] at hc; exact (hx x List.mem_cons_self c hc).2
+          | cons y ys =>
+            simp only [joinWith, List.mem_append, List.mem_cons] at hc
+            rcases hc with hc | rfl | hc
+            · exact (hx x List.mem_cons_self c hc).2
+            · decide
+            · exact ih (fun fld hf => hx fld (List.mem_cons_of_mem _ hf)) c hc
+      exact key _ hsep c hc
+    · intro hnil
+      have hn : p.1.name ≠ [] := by
+        intro e; have := hname.1; rw [e] at this; simp at this
+      simp only [recordFields, List.cons_append, List.nil_append, joinWith] at hnil
+      cases hnm : p.1.name with
+      | nil => exact hn hnm
+      | cons c cs => rw [hnm] at hnil; simp at hnil
+  rw [reader_lines]
+  · simp only [List.map_map]
+    apply List.map_congr_left
+    intro p hp
+    exact parseRecord_format L h hh f hf p.1 (he p hp)
+  · intro p hp
+    simp only [List.mem_map] at hp
+    obtain ⟨q, hq, rfl⟩ := hp
+    refine ⟨fun c hc => ((hline q hq).1 c hc).1, ?_⟩
+    intro hlast
+    have hmem := List.mem_of_getLast? hlast
+    exact ((hline q hq).1 13 hmem).2 rfl
+  · intro _ p hp
+    have hmem := List.mem_of_getLast? hp
+    simp only [List.mem_map] at hmem
+    obtain ⟨q, hq, rfl⟩ := hmem
+    exact (hline q hq).2
+
+/-- with header lines in front: NewReader hands exactly the header lines (each starting with `@` and
+newline-terminated) to the header parser and the reader then returns the lines after them -/
+theorem reader_header_then_lines (ft : FloatText) (h : Header) (hls : List Bytes) (ls : List (Bytes × Bool))
+    (final : Bool) (hne : hls ≠ [])
+    (hh : ∀ l ∈ hls, (∃ rest, l = 64 :: rest) ∧ ∀ c ∈ l, c ≠ 10)
+    (hl : ∀ p ∈ ls, (∀ c ∈ p.1, c ≠ 10) ∧ p.1.getLast? ≠ some 13 ∧ ∀ c rest, p.1 = c :: rest → c ≠ 64)
+    (hlast : final = false → ∀ p, ls.getLast? = some p → p.1 ≠ []) :
+    ∃ body, splitHeader ((headerText hls ++ joinLines ls final).length + 1) [] (headerText hls ++ joinLines ls final) =
+        some (headerText hls, body) ∧
+      readAll ft h body = ls.map fun p => parseRecord ft (some h) p.1 := by
+  refine ⟨joinLines ls final, ?_, reader_lines ft h ls final (fun p hp => ⟨(hl p hp).1, (hl p hp).2.1⟩) hlast⟩
+  have hb : ∀ c rest, joinLines ls final = c :: rest → c ≠ 64 := by
+    intro c rest hj
+    cases ls with
+    | nil => simp [joinLines] at hj
+    | cons p ps =>
+      have hp := (hl p List.mem_cons_self).2.2
+      cases hp1 : p.1 with
+      | nil =>
+        -- an empty first line: the input continues with its line end or is empty
+        cases ps with
+        | nil =>
+          simp only [joinLines, hp1] at hj
+          split at hj
+          · cases hb2 : p.2 <;> simp [eol, hb2] at hj <;> (rw [← hj.1]; decide)
+          · simp at hj
+        | cons q qs =>
+          simp only [joinLines, hp1] at hj
+          cases hb2 : p.2 <;> simp [eol, hb2] at hj <;> (rw [← hj.1]; decide)
+      | cons d ds =>
+        have hd := hp d ds hp1
+        cases ps with
+        | nil =>
+          simp only [joinLines, hp1] at hj
+          split at hj <;> (simp at hj; rw [← hj.1]; exact hd)
+        | cons q qs =>
+          simp only [joinLines, hp1] at hj
+          simp at hj; rw [← hj.1]; exact hd
+  have := splitHeader_spec hls (joinLines ls final) hh hb
+    ((headerText hls ++ joinLines ls final).length + 1) []
+    (by
+      have : hls.length ≤ (headerText hls).length := by
+        clear hh hne
+        induction hls with
+        | nil => simp
+        | cons x xs ih => simp [headerText] at ih ⊢; omega
+      simp; omega)
+    (fun e _ => absurd e hne)
+  simpa using this
+
+/-! ### non-vacuity -/
+
+/-- a header and a record with every kind of field: a placed, paired read with CIGAR, qualities and aux
+fields of the types A, c, I, f, Z (empty), H (empty), B:s and B:f (empty) -/
+def exHeader : Header := ⟨[([99, 104, 114, 49], 1000), ([99, 104, 114, 50], 500)]⟩
+def exRecord : Record :=
+  { name := [114, 48, 48, 49], flags := 99, ref := some ⟨0, [99, 104, 114, 49], 1000⟩, pos := 6, mapq := 30,
+    cigar := [⟨4, 1⟩, ⟨0, 2⟩, ⟨2, 268435455⟩, ⟨0, 1⟩], mateRef := some ⟨1, [99, 104, 114, 50], 500⟩, matePos := 36,
+    tempLen := -2147483648, seq := [1, 2, 4, 8], qual := some [0, 93, 9, 40],
+    aux := [⟨88, 65, .char 33⟩, ⟨88, 66, .int .c (-128)⟩, ⟨88, 67, .int .I 4294967295⟩, ⟨88, 68, .float 2139095040⟩,
+            ⟨88, 69, .text []⟩, ⟨88, 70, .hex []⟩, ⟨88, 71, .ints .s [-32768, 32767]⟩, ⟨88, 72, .floats []⟩] }
+
+example : HeaderOK exHeader := by decide
+example : Expressible exHeader exRecord := by decide
+/-- the single quality 9 is the one value the text cannot carry: it prints as `*` -/
+example : formatQual (some [9]) = formatQual none := by decide
+
+/-- the float laws are satisfiable (a toy float text: the bit pattern in decimal) -/
+def exFloatText : FloatText where
+  fmt := fun b => showNat b.toNat
+  parse := fun s => (parseUintGo s 10 32).map UInt32.ofNat
+
+def exFloatLaws : FloatLaws exFloatText where
+  canon := id
+  parse_fmt := fun b => by
+    show (parseUintGo (showNat b.toNat) 10 32).map UInt32.ofNat = some b
+    rw [parseUintGo_showNat_10 b.toNat 32 b.toNat_lt]; simp
+  fmt_canon := fun _ => rfl
+  canon_eq := fun _ => Or.inl rfl
+  no_sep := fun b c hc => showNat_no_sep b.toNat c hc
+
 end Hts.Props.C06
